@@ -14,7 +14,7 @@ SPEC = {
             "force vectors (acc_force + update_div_neighbors, as ABF does), smoothed and unsmoothed, on small shapes. ABF: the "
             "same sequences (length 1..4 quick, 1..5 thorough; 3-D quick 1..3) through a real ABF bias in the engine "
             "simulator (1-D/2-D/3-D, same-step and lagged total forces, pABF re-integration every step) and through a "
-            "harmonic restraint with writeTIPMF, with the written .pmf/.ti.pmf files parsed back. CONV: 3 smooth surfaces x "
+            "harmonic restraint with writeTIPMF (both also with the grid given by a grid { } block of the bias), with the written .pmf/.ti.pmf files parsed back. CONV: 3 smooth surfaces x "
             "all periodic-flag combinations in 2-D (n=8..64, thorough ..128) and 3-D (n=8..32, thorough ..64). "
             "A case is distinct by (sub-space, shape, widths, representation, load or sequence); it is non-trivial when the "
             "gradient field it presents is not identically zero (BASIS 'below-min' smoothing cases and all-zero 1-D arrays "
